@@ -62,11 +62,29 @@ pub struct World {
     /// not accepted for enums / validated scalars), so worlds for dynamic
     /// schemas keep other list items non-null.
     pub null_items_builtin_only: bool,
+    /// Faults that fire for ONE parent node only: (response path, parent node id) -> fault.
+    /// Several nodes can be resolved at the same response path (every event of a
+    /// subscription root field); a node fault hits exactly one of them, and the
+    /// error message names the node (`boom@<path>#<node id in hex>`), so the cause
+    /// of an error is attributable to one event. Only `Err` and `Null` are honoured.
+    pub node_faults: BTreeMap<(String, u64), Fault>,
+    /// Subscription event node ids are derived from the response key (alias) of
+    /// the root field instead of its name, so two aliases of one field stream
+    /// different nodes (C27).
+    pub event_ids_by_key: bool,
 }
 
 impl World {
     pub fn new(seed: u64) -> World {
-        World { seed, faults: BTreeMap::new(), null_pct: 15, wild_leaves: true, null_items_builtin_only: false }
+        World {
+            seed,
+            faults: BTreeMap::new(),
+            null_pct: 15,
+            wild_leaves: true,
+            null_items_builtin_only: false,
+            node_faults: BTreeMap::new(),
+            event_ids_by_key: false,
+        }
     }
 
     pub fn with_faults(&self, f: &[(String, Fault)]) -> World {
@@ -89,6 +107,13 @@ impl World {
         args_canon: &str,
         path: &str,
     ) -> PlanVal {
+        if !self.node_faults.is_empty() {
+            match self.node_faults.get(&(path.to_string(), parent_id)) {
+                Some(Fault::Err) => return PlanVal::Error(format!("boom@{path}#{parent_id:x}")),
+                Some(Fault::Null) => return PlanVal::Null,
+                _ => {}
+            }
+        }
         match self.faults.get(path) {
             Some(Fault::Err) => return PlanVal::Error(format!("boom@{path}")),
             Some(Fault::Null) => return PlanVal::Null,
